@@ -40,6 +40,11 @@ func CompileCDB(text []byte, path string, workers int) (err error) {
 
 // CompileCDBFrom is CompileCDB reading the data from any reader.
 func CompileCDBFrom(rd io.Reader, path string, workers int) (err error) {
+	defer func() {
+		if e := recover(); e != nil {
+			err = fmt.Errorf("the compiler panicked: %v", e)
+		}
+	}()
 	w, err := cdb.NewWriter(path)
 	if err != nil {
 		return err
@@ -70,7 +75,12 @@ func CompileRDB(text []byte, dir string, o RDBOpts) error {
 }
 
 // CompileRDBFrom is CompileRDB reading the data from any reader.
-func CompileRDBFrom(rd io.Reader, dir string, o RDBOpts) error {
+func CompileRDBFrom(rd io.Reader, dir string, o RDBOpts) (err error) {
+	defer func() {
+		if e := recover(); e != nil {
+			err = fmt.Errorf("the compiler panicked: %v", e)
+		}
+	}()
 	os.RemoveAll(dir)
 	if err := os.MkdirAll(dir, 0o755); err != nil {
 		return err
@@ -85,7 +95,7 @@ func CompileRDBFrom(rd io.Reader, dir string, o RDBOpts) error {
 		BatchNumParallel: o.BatchParallel,
 		BatchSize:        o.BatchSize,
 	}
-	_, err := rdb.Compile(rd, Serial, dir, opts)
+	_, err = rdb.Compile(rd, Serial, dir, opts)
 	return err
 }
 
